@@ -10,6 +10,7 @@ CONSTANTS
   BurySizes = {2}
   Rev = TRUE
   MaxH = 6
+  Crash = FALSE
 VIEW View
 CONSTRAINT Bound
 INVARIANTS C15a C15b TypeOK ModelAgrees
